@@ -8,7 +8,7 @@ use std::hash::{Hash, Hasher};
 use std::io::Write as _;
 use std::process::{Command, Stdio};
 
-pub const SHAPES: [&str; 11] = ["seq-inline", "seq-lines", "map-lines", "explicit-key", "flow-seq", "flow-map", "flow-map-json", "alternating", "block-then-flow", "anchored-seq-inline", "anchored-alias-chain"];
+pub const SHAPES: [&str; 12] = ["seq-inline", "seq-lines", "map-lines", "explicit-key", "flow-seq", "flow-map", "flow-map-json", "alternating", "block-then-flow", "anchored-seq-inline", "anchored-alias-chain", "keyed-deep-duplicate-key"];
 /// `*-1MiB`: the same scenario on a thread with a 1 MiB stack (the budget of the stack probes): the
 /// pull and push interfaces keep their continuation on the heap, so their stack use must not depend
 /// on the depth at all, and a per-level frame anywhere in scanner or parser shows up ten times earlier.
@@ -29,6 +29,7 @@ pub fn make_input_leaf(shape: &str, depth: usize, leaf: Option<&str>) -> String 
         // every shape has exactly one innermost scalar, written last before the closers
         let (pat, with): (&str, String) = match shape {
             "seq-inline" | "explicit-key" | "anchored-seq-inline" => ("a\n", format!("{l}\n")),
+            "keyed-deep-duplicate-key" => ("a\n: w", format!("{l}\n: w")),
             "seq-lines" | "alternating" => ("a\n", format!("{l}\n")),
             "map-lines" => ("v\n", format!("{l}\n")),
             "flow-seq" => ("[]", format!("[{l}]")),
@@ -52,6 +53,12 @@ fn make_input_default(shape: &str, depth: usize) -> String {
                 s.push_str("- ");
             }
             s.push_str("a\n");
+        }
+        "keyed-deep-duplicate-key" => {
+            // the same deep sequence twice as a mapping key: the second insertion hashes, compares and
+            // drops a deep key inside the loader
+            let k = "- ".repeat(depth);
+            s.push_str(&format!("? {k}a\n: v\n? {k}a\n: w\n"));
         }
         "anchored-alias-chain" => {
             // flat text, deep tree: every line wraps an alias to the previous line's node
@@ -519,7 +526,9 @@ pub fn run_scenario(shape: &str, depth: usize, api: &str) -> Outcome {
 /// Block shapes can nest without limit; flow shapes are cut off by the scanner's flow-depth limit
 /// (an error value beyond 255 levels), so a deep tree can only come from block nesting.
 fn shape_class(shape: &str) -> &'static str {
-    if shape.starts_with("anchored-") {
+    if shape.starts_with("keyed-") {
+        "deep-collection-key"
+    } else if shape.starts_with("anchored-") {
         "anchored-block-nesting"
     } else if shape.starts_with("flow-") {
         "flow-nesting"
